@@ -153,15 +153,18 @@ def WellTyped (T : Table) (c : String → String) : Prop := ∀ f ∈ T.fields, 
 
 instance (T : Table) (c : String → String) : Decidable (WellTyped T c) := by unfold WellTyped; infer_instance
 
-/-- every string option holds a value the YAML writer/reader pair preserves -/
+/-- nesting depth of the option's key in the file: the number of dots of its yaml path -/
+def Field.depth (f : Field) : Nat := (f.yaml.toList.filter (· = '.')).length
+
+/-- every string option holds a value the YAML writer/reader pair preserves (under its key) -/
 def AllYamlSafe (T : Table) (c : String → String) : Prop :=
-  ∀ f ∈ T.fields, f.kind = "string" → Yaml.YamlSafe (c f.go) = true
+  ∀ f ∈ T.fields, f.kind = "string" → Yaml.YamlSafeAt f.depth (c f.go) = true
 
 instance (T : Table) (c : String → String) : Decidable (AllYamlSafe T c) := by unfold AllYamlSafe; infer_instance
 
 /-- what happens to the value of one option on its way through the file -/
 def fieldOutcome (c : String → String) (f : Field) : Yaml.Outcome :=
-  if f.kind = "string" then Yaml.roundTripS (c f.go) else .same
+  if f.kind = "string" then Yaml.roundTrip f.depth (c f.go).toList else .same
 
 /-- the value `Load` finds in the file for the option -/
 def yamlValue (c : String → String) (f : Field) : String :=
